@@ -34,7 +34,7 @@ use crate::{
 };
 
 use bytes::BytesMut;
-use futures::{channel, future::BoxFuture, stream::FuturesUnordered, StreamExt};
+use futures::{channel, future::BoxFuture, stream::FuturesUnordered, FutureExt, StreamExt};
 use tokio::{
     sync::{
         mpsc::{Receiver, Sender},
@@ -306,6 +306,38 @@ impl RequestResponseProtocol {
     /// Connection closed to remote peer.
     async fn on_connection_closed(&mut self, peer: PeerId) {
         tracing::debug!(target: LOG_TARGET, ?peer, protocol = %self.protocol, "connection closed");
+
+        // A response that has already arrived wins over the close: the remote may close the
+        // connection right after it has written its response (e.g. its keep-alive timeout had
+        // expired while the request was being processed), in which case the response is readable
+        // from the substream while `ConnectionClosed` is already queued. Service events are polled
+        // before the request futures, so without this step such a request would be reported as
+        // failed although its response was delivered. Requests whose future has failed are left
+        // in `active` and reported as `ConnectionClosed` below, as before.
+        while let Some(Some((request_peer, request_id, fallback, event))) =
+            self.pending_inbound.next().now_or_never()
+        {
+            self.pending_outbound_cancels.remove(&request_id);
+
+            if request_peer == peer
+                && !matches!(event, Ok(_) | Err(RequestResponseError::Canceled))
+            {
+                continue;
+            }
+
+            if let Err(error) =
+                self.on_substream_event(request_peer, request_id, fallback, event).await
+            {
+                tracing::debug!(
+                    target: LOG_TARGET,
+                    peer = ?request_peer,
+                    protocol = %self.protocol,
+                    ?request_id,
+                    ?error,
+                    "failed to handle substream event",
+                );
+            }
+        }
 
         // Remove any pending outbound substreams for this peer.
         self.pending_outbound.retain(|_, context| context.peer != peer);
